@@ -455,6 +455,19 @@ func (g *G) fundef(d int, gen bool) string {
 		info.params = append(info.params, pt)
 		ps = append(ps, p)
 	}
+	if np >= 2 && g.pick(12) == 0 {
+		// a repeated parameter name: the earlier position is shadowed by the later one
+		i := g.pick(np - 1)
+		j := i + 1 + g.pick(np-1-i)
+		sc := g.scopes[len(g.scopes)-1]
+		for k, v := range sc {
+			if v.name == ps[i] {
+				g.scopes[len(g.scopes)-1] = append(sc[:k:k], sc[k+1:]...)
+				break
+			}
+		}
+		ps[i] = ps[j]
+	}
 	saveGen, saveFn := g.inGen, g.inFn
 	g.inGen = gen
 	g.inFn++
